@@ -63,22 +63,29 @@ pub fn bfs<M: HistModel>(m: &M, depth: usize, max_states: u64) -> BfsOut {
             .map(|h| {
                 let mut res = vec![];
                 for op in 0..nops {
-                    let mut sys = replay(m, h);
-                    let mut vs = vec![];
-                    if !m.apply(&mut sys, op, true, &mut vs) {
-                        continue;
+                    // the subject may panic (debug assertions are on): a panic is a violation of
+                    // the step that raised it, and the state is not explored further
+                    let r = guarded(|| {
+                        let mut sys = replay(m, h);
+                        let mut vs = vec![];
+                        if !m.apply(&mut sys, op, true, &mut vs) {
+                            return None;
+                        }
+                        let key = m.key(&sys);
+                        Some((key, vs))
+                    });
+                    match r {
+                        Ok(None) => continue,
+                        Ok(Some((key, vs))) => res.push((op, key, vs, 0u64)),
+                        Err(p) => res.push((op, format!("\u{0}panic"), vec![(format!("{}:panic", m.op_name(op).split('(').next().unwrap_or("op")), format!("{} panicked: {p}", m.op_name(op)))], 1u64)),
                     }
-                    let key = m.key(&sys);
-                    // the battery is run by the thread that discovers the state; duplicates are
-                    // filtered afterwards (a state reached twice in one level is checked twice, harmless)
-                    res.push((op, key, vs, 0u64));
                 }
                 res
             })
             .collect();
         let mut next: Vec<Vec<usize>> = vec![];
         for (h, res) in frontier.iter().zip(results) {
-            for (op, key, vs, _) in res {
+            for (op, key, vs, panicked) in res {
                 out.transitions += 1;
                 let mut hh = h.clone();
                 hh.push(op);
@@ -86,6 +93,9 @@ pub fn bfs<M: HistModel>(m: &M, depth: usize, max_states: u64) -> BfsOut {
                     if out.violations.len() < 100_000 {
                         out.violations.push(Violation::new(sig, detail, serde_json::json!({"history": m.history_json(&hh)})));
                     }
+                }
+                if panicked == 1 {
+                    continue;
                 }
                 if !seen.contains_key(&key) {
                     seen.insert(key, ());
@@ -97,10 +107,15 @@ pub fn bfs<M: HistModel>(m: &M, depth: usize, max_states: u64) -> BfsOut {
         let bres: Vec<(u64, Vec<(String, String)>)> = next
             .par_iter()
             .map(|h| {
-                let sys = replay(m, h);
-                let mut vs = vec![];
-                let n = m.battery(&sys, &mut vs);
-                (n, vs)
+                match guarded(|| {
+                    let sys = replay(m, h);
+                    let mut vs = vec![];
+                    let n = m.battery(&sys, &mut vs);
+                    (n, vs)
+                }) {
+                    Ok(r) => r,
+                    Err(p) => (1, vec![("query:panic".to_string(), format!("a query of the per-state battery panicked: {p}"))]),
+                }
             })
             .collect();
         for (h, (n, vs)) in next.iter().zip(bres) {
